@@ -341,9 +341,13 @@ def main() -> int:
     # two deadlines: the sampled workloads (soups, programs, in-context sequences) stop early and merely show
     # smaller counts; the deciding workloads (corpus, exhaustive enumeration, probes) get the whole budget and
     # make the run inconclusive if even that is not enough (overloaded machine)
-    budget = 165.0 if quick else 1150.0
+    try:      # VERIF_BUDGET_SCALE > 1 stretches both deadlines (for a machine shared with other jobs)
+        scale = max(0.1, float(os.environ.get('VERIF_BUDGET_SCALE', '1')))
+    except ValueError:
+        scale = 1.0
+    budget = (165.0 if quick else 1150.0) * scale
     deadline = t0 + budget
-    soft_deadline = t0 + (100.0 if quick else 950.0)
+    soft_deadline = t0 + (100.0 if quick else 950.0) * scale
 
     # ---- work list --------------------------------------------------------------------------------
     L = 4 if quick else 5
@@ -357,12 +361,12 @@ def main() -> int:
     for ln in range(1, L - 1):        # all shorter lengths (full alphabet)
         for spec in gen.exhaustive_items('full', ln):
             items.append(('enum', deadline, spec))
-    ctx_bounds = {'full': 2 if quick else 3, 'core': 3 if quick else 4}
+    ctx_bounds = {'full': 2 if quick else 3, 'core': 3}
     for alphabet, cl in ctx_bounds.items():
         for ln in range(1, cl + 1):
             for spec in gen.exhaustive_items(alphabet, ln):
                 items.append(('ctx', soft_deadline, spec))
-    n_soup, n_prog = (20000, 3000) if quick else (300000, 100000)
+    n_soup, n_prog = (20000, 3000) if quick else (300000, 60000)
     per = 500
     first: T.List[tuple] = []           # a minimal slice of the sampled workloads always runs (deciding deadline)
     for idx in range(n_soup // per):
